@@ -180,6 +180,22 @@ pub mod fs {
         fn flush(&mut self, handle: u64 ) -> io::Result<()>;
         fn sync(&mut self, handle: u64 ) -> io::Result<()>;
         fn close(&mut self, handle: u64 );
+        // path operations: `None` means "not mine, use the real file system"
+        fn rename(&mut self, _from: &str, _to: &str ) -> Option<io::Result<()>> { None }
+        fn remove_file(&mut self, _path: &str ) -> Option<io::Result<()>> { None }
+        fn exists(&mut self, _path: &str ) -> Option<bool> { None }
+        fn open_with(&mut self, _path: &str, _spec: &OpenSpec ) -> Option<io::Result<u64>> { None }
+    }
+
+    /// What an `OpenOptions` asks for.
+    #[derive(Clone, Copy, Debug, Default, PartialEq, Eq)]
+    pub struct OpenSpec {
+        pub read: bool,
+        pub write: bool,
+        pub append: bool,
+        pub truncate: bool,
+        pub create: bool,
+        pub create_new: bool,
     }
 
     ::std::thread_local! {
@@ -233,6 +249,14 @@ pub mod fs {
                 Some( r ) => r.map(|h| File { inner: Inner::Sim( h ) }),
                 None => ::std::fs::File::open( path ).map(|f| File { inner: Inner::Real( f ) }),
             }
+        }
+
+        pub fn create_new<P: AsRef<Path>>( path: P ) -> io::Result<File> {
+            OpenOptions::new().read( true ).write( true ).create_new( true ).open( path )
+        }
+
+        pub fn options() -> OpenOptions {
+            OpenOptions::new()
         }
 
         pub fn sync_all(&self) -> io::Result<()> {
@@ -294,6 +318,67 @@ pub mod fs {
                 let _ = with_backend(|b| b.close( h ));
             }
         }
+    }
+
+    /// Stand-in for `std::fs::OpenOptions`.
+    #[derive(Clone, Debug, Default)]
+    pub struct OpenOptions {
+        spec: OpenSpec,
+    }
+
+    impl OpenOptions {
+        pub fn new() -> Self { OpenOptions { spec: OpenSpec::default() } }
+        pub fn read(&mut self, v: bool ) -> &mut Self { self.spec.read = v; self }
+        pub fn write(&mut self, v: bool ) -> &mut Self { self.spec.write = v; self }
+        pub fn append(&mut self, v: bool ) -> &mut Self { self.spec.append = v; self }
+        pub fn truncate(&mut self, v: bool ) -> &mut Self { self.spec.truncate = v; self }
+        pub fn create(&mut self, v: bool ) -> &mut Self { self.spec.create = v; self }
+        pub fn create_new(&mut self, v: bool ) -> &mut Self { self.spec.create_new = v; self }
+        pub fn open<P: AsRef<Path>>(&self, path: P ) -> io::Result<File> {
+            let name = path.as_ref().to_string_lossy().into_owned();
+            let spec = self.spec;
+            match with_backend(|b| b.open_with( &name, &spec )) {
+                Some( Some( r ) ) => r.map(|h| File { inner: Inner::Sim( h ) }),
+                _ => ::std::fs::OpenOptions::new()
+                    .read( spec.read ).write( spec.write ).append( spec.append )
+                    .truncate( spec.truncate ).create( spec.create ).create_new( spec.create_new )
+                    .open( path ).map(|f| File { inner: Inner::Real( f ) }),
+            }
+        }
+    }
+
+    /// `std::fs::rename` over the seam.
+    pub fn rename<P: AsRef<Path>, Q: AsRef<Path>>( from: P, to: Q ) -> io::Result<()> {
+        let (a, b) = ( from.as_ref().to_string_lossy().into_owned(), to.as_ref().to_string_lossy().into_owned() );
+        match with_backend(|be| be.rename( &a, &b )) {
+            Some( Some( r ) ) => r,
+            _ => ::std::fs::rename( from, to ),
+        }
+    }
+
+    /// `std::fs::remove_file` over the seam.
+    pub fn remove_file<P: AsRef<Path>>( path: P ) -> io::Result<()> {
+        let a = path.as_ref().to_string_lossy().into_owned();
+        match with_backend(|be| be.remove_file( &a )) {
+            Some( Some( r ) ) => r,
+            _ => ::std::fs::remove_file( path ),
+        }
+    }
+
+    /// `std::fs::exists` over the seam.
+    pub fn exists<P: AsRef<Path>>( path: P ) -> io::Result<bool> {
+        let a = path.as_ref().to_string_lossy().into_owned();
+        match with_backend(|be| be.exists( &a )) {
+            Some( Some( r ) ) => Ok( r ),
+            _ => path.as_ref().try_exists(),
+        }
+    }
+
+    /// `std::fs::copy` over the seam (read everything, write everything).
+    pub fn copy<P: AsRef<Path>, Q: AsRef<Path>>( from: P, to: Q ) -> io::Result<u64> {
+        let bytes = read( from )?;
+        write( to, &bytes )?;
+        Ok( bytes.len() as u64 )
     }
 
     /// `std::fs::read_to_string` over the seam: std's own `Read::read_to_string`
